@@ -211,7 +211,7 @@ let ref_op (x : obj) (c : cur) (ret : string option) : refres =
       { (same (union_sys xs { eqs = List.map snd cgs; ineqs = [] })) with claim = (if op = "add_congruences" then Exact else Sound); within_pre = true }
   | "intersection_assign" -> let y = arg () in same (union_sys xs y.gamma)
   | "upper_bound_assign" -> let y = arg () in { rdim = n; pieces = [ xs; y.gamma ]; claim = Best; within_pre = false }
-  | "upper_bound_assign_if_exact" ->
+  | "upper_bound_assign_if_exact" | "integer_upper_bound_assign_if_exact" ->
       let y = arg () in
       (match ret with
        | Some "1" -> { rdim = n; pieces = [ xs; y.gamma ]; claim = Best; within_pre = false }
@@ -225,7 +225,7 @@ let ref_op (x : obj) (c : cur) (ret : string option) : refres =
   | "topological_closure_assign" -> same (relax xs)
   | "closure" | "reduction" | "obs_constraints" | "obs_minimized_constraints" | "obs_is_empty" -> same xs
   | "incremental_closure" -> ignore (nexti c); let k = read_con c n in same (union_sys xs (con_sys k))
-  | "assign" -> let y = arg () in same y.gamma
+  | "assign" | "swap" | "swap_std" -> let y = arg () in same y.gamma
   | "affine_image" | "affine_preimage" ->
       let v = nexti c in let d = nextz c in let e = read_expr_n c in check_den d;
       if v >= n || List.length e.lcoefs > n then raise (Skip "dimension-incompatible");
@@ -350,7 +350,10 @@ let check_state_basic line (o : obj) =
     if o.car = "q" || o.car = "z" then rep "C03:OK" line (if o.ok = 1 then Ok else Fail "OK() returned false") else (if o.ok <> 1 then bump "OK-false-inexact-carrier");
     (match o.bad with Some b -> rep "C03:entry" line (Fail b) | None -> ());
     (* constraints() denotes the same set as the private representation *)
-    rep "C03:cons-vs-rep" line (of_ob true "constraints() and the dumped representation denote different sets" (equiv (sys_of_cons o.cons) o.gamma))
+    (let v = of_ob true "constraints() and the dumped representation denote different sets" (equiv (sys_of_cons o.cons) o.gamma) in
+     rep "C03:cons-vs-rep" line v;
+     (* exact carriers: the observers constraints() / minimized_constraints() are exact whatever the history (C04) *)
+     if !prop = "C04" && exact_car o then rep "C04:cons-vs-rep" line v)
   end
 
 (* result vs reference *)
@@ -636,11 +639,12 @@ let () =
            let stl = ref (rdo1 ()) in
            let id, post = parse_st !stl in
            let pre = get (int_of_string ids) in
+           let swapped = (if name = "swap" || name = "swap_std" then Some (parse_st (rdo1 ())) else None) in
            tags := "";
            lazy_tags := (fun () ->
              obj_tags "recv_" pre ^
              (match rest with
-              | a :: _ when List.mem name [ "intersection_assign"; "upper_bound_assign"; "difference_assign"; "concatenate_assign"; "time_elapse_assign"; "upper_bound_assign_if_exact"; "assign"; "simplify_using_context_assign" ] ->
+              | a :: _ when List.mem name [ "intersection_assign"; "upper_bound_assign"; "difference_assign"; "concatenate_assign"; "time_elapse_assign"; "upper_bound_assign_if_exact"; "integer_upper_bound_assign_if_exact"; "assign"; "swap"; "swap_std"; "simplify_using_context_assign" ] ->
                   (try obj_tags "arg_" (get (int_of_string a)) with _ -> "")
               | _ -> ""));
            bump ("op:" ^ name); bump ("opk:" ^ pre.kind ^ ":" ^ name); bump ("flags:" ^ post.kind ^ ":" ^ post.flags);
@@ -688,6 +692,14 @@ let () =
                        end
                      end)
                 with Skip w -> bump ("unmodelled:" ^ name)));
+           (match swapped with
+            | Some (id2, post2) ->
+                check_state_basic line post2;
+                if id2 <> id then begin
+                  check_result line "op:swap/other" post2 { rdim = pre.dim; pieces = [ pre.gamma ]; claim = Exact; within_pre = false } None;
+                  Hashtbl.replace pool id2 post2
+                end
+            | None -> ());
            Hashtbl.replace pool id post
        | "stall" :: _ ->
            incr step; tags := ""; lazy_tags := (fun () -> "");
